@@ -21,7 +21,6 @@ import re
 from dataclasses import dataclass, field
 from typing import Any, Optional
 
-from amaranth import *  # noqa: F403
 from amaranth.hdl import Fragment
 
 from transactron.core.manager import TransactionManager
